@@ -287,85 +287,93 @@ def prove(prop, allowed_axioms=()):
 # --------------------------------------------------------------------------------------
 # differential execution
 # --------------------------------------------------------------------------------------
-def _run_shard(exe, lines, timeout, env=None, cwd=None):
-    e = dict(os.environ)
-    if env:
-        e.update(env)
-    p = subprocess.Popen([exe], stdin=subprocess.PIPE, stdout=subprocess.PIPE, stderr=subprocess.PIPE,
-                         env=e, cwd=cwd)
-    return p
-
-
-def run_lines(exe, lines, timeout=600, shards=None, env=None):
-    """feed protocol lines to exe in parallel shards; returns list of output lines (same length).
-
-    a shard that dies (abort, stack overflow) is bisected so that only the offending line is
-    marked (abort)"""
-    n = len(lines)
-    if n == 0:
-        return []
-    shards = shards or min(NCPU, max(1, n // 50))
-    size = (n + shards - 1) // shards
-    chunks = [(i, lines[i:i + size]) for i in range(0, n, size)]
-    procs = []
-    for start, chunk in chunks:
-        p = _run_shard(exe, chunk, timeout, env)
-        procs.append((start, chunk, p))
-    import threading
-    results = {}
-
-    def feed(start, chunk, p):
-        try:
-            out, _ = p.communicate(("\n".join(chunk) + "\n").encode(), timeout=timeout)
-            results[start] = (p.returncode, out.decode("utf-8", "replace").split("\n"))
-        except subprocess.TimeoutExpired:
-            p.kill()
-            p.communicate()
-            results[start] = (-9, None)
-
-    ths = [threading.Thread(target=feed, args=a) for a in procs]
-    for t in ths:
-        t.start()
-    for t in ths:
-        t.join()
-    out = [None] * n
-    for start, chunk, p in procs:
-        rc, res = results[start]
-        if res is not None and res and res[-1] == "":
-            res = res[:-1]
-        if rc == 0 and res is not None and len(res) == len(chunk):
-            out[start:start + len(chunk)] = res
+def _groups(lines):
+    """cases: a RESET line starts a case that extends to the next RESET; lines before the first
+    RESET are independent (one group each)"""
+    groups = []
+    cur = None
+    for k, l in enumerate(lines):
+        if l == "RESET":
+            if cur is not None:
+                groups.append(cur)
+            cur = [k]
+        elif cur is not None:
+            cur.append(k)
         else:
-            out[start:start + len(chunk)] = _bisect(exe, chunk, timeout, env, rc)
-    return out
+            groups.append([k])
+    if cur is not None:
+        groups.append(cur)
+    return groups
 
 
-def _run_one_chunk(exe, chunk, timeout, env):
+def _run_groups(exe, lines, groups, timeout, env):
+    """one process over the given groups; returns (rc, list of outputs or None)"""
+    idx = [k for g in groups for k in g]
     e = dict(os.environ)
     if env:
         e.update(env)
     try:
-        p = subprocess.run([exe], input=("\n".join(chunk) + "\n").encode(), stdout=subprocess.PIPE,
-                           stderr=subprocess.PIPE, env=e, timeout=timeout)
+        p = subprocess.run([exe], input=("\n".join(lines[k] for k in idx) + "\n").encode(),
+                           stdout=subprocess.PIPE, stderr=subprocess.PIPE, env=e, timeout=timeout)
     except subprocess.TimeoutExpired:
         return -9, None
     res = p.stdout.decode("utf-8", "replace").split("\n")
     if res and res[-1] == "":
         res = res[:-1]
-    return p.returncode, res
+    if p.returncode == 0 and len(res) == len(idx):
+        return 0, res
+    return (p.returncode or 1), None
 
 
-def _bisect(exe, chunk, timeout, env, rc):
-    if len(chunk) == 1:
-        return ["(timeout)" if rc == -9 else "(abort)"]
-    mid = len(chunk) // 2
-    out = []
-    for part in (chunk[:mid], chunk[mid:]):
-        rc2, res = _run_one_chunk(exe, part, min(timeout, 120), env)
-        if rc2 == 0 and res is not None and len(res) == len(part):
-            out.extend(res)
+def _solve(exe, lines, groups, timeout, env, out):
+    rc, res = _run_groups(exe, lines, groups, timeout, env)
+    if res is not None:
+        for k, r in zip([k for g in groups for k in g], res):
+            out[k] = r
+        return
+    if len(groups) == 1:
+        g = groups[0]
+        if len(g) > 1:
+            # find the first line of the case that kills the process: run growing prefixes
+            lo = 1
+            while lo < len(g):
+                rc2, res2 = _run_groups(exe, lines, [g[:lo + 1]], min(timeout, 120), env)
+                if res2 is None:
+                    break
+                lo += 1
+            rc3, res3 = _run_groups(exe, lines, [g[:lo]], min(timeout, 120), env)
+            if res3 is not None:
+                for k, r in zip(g[:lo], res3):
+                    out[k] = r
+            mark = "(timeout)" if rc == -9 else "(abort)"
+            for k in g[lo:]:
+                out[k] = mark
         else:
-            out.extend(_bisect(exe, part, timeout, env, rc2))
+            out[g[0]] = "(timeout)" if rc == -9 else "(abort)"
+        return
+    mid = len(groups) // 2
+    _solve(exe, lines, groups[:mid], min(timeout, 300), env, out)
+    _solve(exe, lines, groups[mid:], min(timeout, 300), env, out)
+
+
+def run_lines(exe, lines, timeout=600, shards=None, env=None):
+    """feed protocol lines to exe in parallel shards (split at case boundaries); returns the list
+    of output lines (same length). A shard that dies (abort, stack overflow) or times out is
+    bisected so that only the offending line and the rest of its case are marked."""
+    n = len(lines)
+    if n == 0:
+        return []
+    groups = _groups(lines)
+    shards = shards or min(NCPU, max(1, n // 50))
+    per = (len(groups) + shards - 1) // shards
+    chunks = [groups[i:i + per] for i in range(0, len(groups), per)]
+    out = [None] * n
+    import threading
+    ths = [threading.Thread(target=_solve, args=(exe, lines, ch, timeout, env, out)) for ch in chunks]
+    for t in ths:
+        t.start()
+    for t in ths:
+        t.join()
     return out
 
 
